@@ -85,6 +85,7 @@ type Synth struct {
 	WithPos  bool // give nodes and tokens unique positions
 	PlainTok bool // tokens without free-floating markers
 	Nasty    bool // sometimes put bytes that need quoting into marker values
+	NestFF   bool // sometimes give a free-floating token free-floating tokens of its own (a rewritten tree that kept a removed token's comments)
 	Share    bool // sometimes put ONE node object twice into a list (a tree built by re-using a node: "echo $a, $a")
 	Shared   int  // how many lists got a repeated element
 	Leaves   []ast.Vertex
@@ -96,7 +97,7 @@ func (s *Synth) next() int { s.n++; return s.n }
 // formatter themselves, not an identifier character at either end.
 func Mark(class string, n int) []byte { return []byte(fmt.Sprintf("\x01%s%d\x02", class, n)) }
 
-var nasty = []string{"\xe9", "\xef\xbb\xbf", "\"", "\\", "\n", "\r\n", "\t", "`", "'", "\x00", "\xff\xfe", "é", "\u2028", "$a", "{", "*/", "?>", "<?php"}
+var nasty = []string{"\xe9", "\xef\xbb\xbf", "\"", "\\", "\n", "\r\n", "\t", "`", "'", "\x00", "\xff\xfe", "é", "\u2028", "$a", "{", "*/", "?>", "<?php", "%", "%s", "100%", "%d%%", "%!v", "\\x", "\\", "\r", "\x7f", "\xc3", "\u00a0"}
 
 // mark is Mark with, sometimes, bytes that are awkward for quoting inside the marker.
 func (s *Synth) mark(class string) []byte {
@@ -129,7 +130,11 @@ func (s *Synth) Tok(class string) *token.Token {
 		}
 		for i := 0; i < nff; i++ {
 			// every id the scanner gives to free-floating tokens: the printer must emit them all alike
-			t.FreeFloating = append(t.FreeFloating, &token.Token{ID: synthFFIDs[s.R.Intn(len(synthFFIDs))], Value: s.mark("F"), Position: s.pos()})
+			ff := &token.Token{ID: synthFFIDs[s.R.Intn(len(synthFFIDs))], Value: s.mark("F"), Position: s.pos()}
+			if s.NestFF && s.R.Chance(1, 5) {
+				ff.FreeFloating = []*token.Token{{ID: token.T_COMMENT, Value: s.mark("F"), Position: s.pos()}}
+			}
+			t.FreeFloating = append(t.FreeFloating, ff)
 		}
 	}
 	return t
